@@ -66,8 +66,12 @@ Add(p, nm) ==
   /\ exp' = res'
   /\ UNCHANGED iters
 
+\* "mtext" / "mtree": text / encoder output with the massive option (one root: the result is the simple mode's)
+Base(kind) == CASE kind = "mtext" -> "text" [] kind = "mtree" -> "tree" [] OTHER -> kind
+
 \* the code-shaped result of an operation of `kind` on root r
-CodeResult(kind, r) ==
+CodeResult(kind0, r) ==
+  LET kind == Base(kind0) IN
   CASE kind = "text" -> [None EXCEPT !.k = "text", !.rows = CodeRowsOfRoot(store, r, LastBy)]
     [] kind = "tree" -> [None EXCEPT !.k = "tree", !.forest = <<TreeOf(store, r)>>]
     [] kind = "walk" -> [None EXCEPT !.k = "walk", !.walk = CodeWalk(store, <<r>>, LastBy)]
@@ -75,8 +79,9 @@ CodeResult(kind, r) ==
     [] kind = "mkdir" -> [None EXCEPT !.k = "mkdir", !.forest = <<TreeOf(store, r)>>]   \* into a fresh directory: exactly the tree (Fs.tla says how)
 
 \* the declarative result: a function of the tree's shape and names alone
-RuleResult(kind, r) ==
-  LET t == TreeOf(store, r) IN
+RuleResult(kind0, r) ==
+  LET t == TreeOf(store, r)
+      kind == Base(kind0) IN
   CASE kind = "text" -> [None EXCEPT !.k = "text", !.rows = RootRows(t)]
     [] kind = "tree" -> [None EXCEPT !.k = "tree", !.forest = <<t>>]
     [] kind = "walk" -> [None EXCEPT !.k = "walk", !.walk = RootWalk(t)]
